@@ -79,6 +79,15 @@ class Unit:
                 out.append(text)
                 i += 1
                 continue
+            if ln.startswith('//@const'):
+                o = parse_kv(ln[8:])
+                for nm in o['name'].split(','):
+                    text, line = X.extract_const(X.read_repo(o['file']), nm, list(defs))
+                    info['functions'].append(dict(name='const ' + nm, file=o['file'], line=line,
+                                                  sha=hashlib.sha1(text.encode()).hexdigest()[:12], rules={'Rc.const': 1}))
+                    out.append(text)
+                i += 1
+                continue
             if ln.startswith('//@struct'):
                 o = parse_kv(ln[9:])
                 src = X.read_repo(o['file'])
@@ -201,7 +210,7 @@ class Unit:
                 raise X.ExtractError('%s: sub /%s/ fired %d < %d' % (self.name, pat, n, mn))
         nl = 0
         macro = ''
-        if fn is not None and o.get('refmacro'):
+        if fn is not None and o.get('refmacro', '0') != '0':
             # callers written for reference parameters pass lvalues: F(x) -> F__p(&(x))
             sig_part = text.split('@@CONTRACT@@', 1)[0]
             plist = sig_part[sig_part.index('(') + 1: sig_part.rindex(')')]
@@ -291,15 +300,24 @@ def run_one(unit, run, workdir, tier='quick', keep=False, extra_flags='', trace_
     gi = ''
     use_dfcc = run.get('enforce') or run.get('replace') or run.get('loops')
     if use_dfcc:
-        gi = 'goto-instrument --dfcc %s' % entry
-        if run.get('enforce'):
-            gi += ' --enforce-contract%s %s' % ('-rec' if run.get('rec') else '', run['enforce'])
-        for g in [g for g in run.get('replace', '').split(',') if g]:
-            gi += ' --replace-call-with-contract %s' % g
-        if run.get('loops'):
-            gi += ' --apply-loop-contracts'
-        gi += ' %s %s' % (a, b)
-        rc, out2, _ = sh(gi, 300)
+        repl = [g for g in run.get('replace', '').split(',') if g]
+        for _try in range(len(repl) + 1):
+            gi = 'goto-instrument --dfcc %s' % entry
+            if run.get('enforce'):
+                gi += ' --enforce-contract%s %s' % ('-rec' if run.get('rec') else '', run['enforce'])
+            for g in repl:
+                gi += ' --replace-call-with-contract %s' % g
+            if run.get('loops'):
+                gi += ' --apply-loop-contracts'
+            gi += ' %s %s' % (a, b)
+            rc, out2, _ = sh(gi, 300)
+            mm = re.search(r"Function to replace '(\w+)' not found", out2)
+            if mm and mm.group(1) in repl:
+                # the callee is no longer called by the extracted code: nothing to replace
+                repl.remove(mm.group(1))
+                res.setdefault('notes', []).append('stub %s is not called' % mm.group(1))
+                continue
+            break
         if rc != 0 or not os.path.exists(b):
             res['status'] = 'instrument-error'
             res['out'] = out2[-4000:]
